@@ -253,9 +253,8 @@ def build_library_operation(spec, world=None):
             return (
                 Operation(
                     PolarizationOperationType.U3,
-                    phi=spec["phi"],
-                    theta=spec["theta"],
-                    omega=spec["omega"],
+                    # the order in which the caller writes the keywords is a choice too
+                    **{k: spec[k] for k in spec.get("kw", ["phi", "theta", "omega"])},
                 ),
                 user,
             )
